@@ -259,44 +259,49 @@ Example capability_grows :
 Proof. vm_compute. reflexivity. Qed.
 
 (* ---------------------------------------------------------------- the fuel of the read loop never runs out *)
-Lemma take_not_err n s e : take n s <> PErr e.
+Lemma take_not_err n s e r : take n s <> PErr e r.
 Proof. unfold take. destruct (n <? 0); [discriminate|]. destruct (zlen s <? n); discriminate. Qed.
 
 Lemma take_ok_nonneg n s a r : take n s = POk a r -> 0 <= n.
 Proof. unfold take. destruct (Z.ltb_spec n 0) as [H|H]; [discriminate|]. intros _. exact H. Qed.
 
-Lemma u8_not_err s e : u8 s <> PErr e.
+Lemma u8_not_err s e r : u8 s <> PErr e r.
 Proof.
-  unfold u8, pmap, bind. destruct (take 1 s) as [a r| |e0|] eqn:E; try discriminate.
-  exfalso. exact (take_not_err _ _ _ E).
+  unfold u8, pmap, bind. destruct (take 1 s) as [a r0| |e0 r0|] eqn:E; try discriminate.
+  exfalso. exact (take_not_err _ _ _ _ E).
+Qed.
+
+Lemma u16_not_err s e r : u16 s <> PErr e r.
+Proof.
+  unfold u16, pmap, bind. destruct (take 2 s) as [a r0| |e0 r0|] eqn:E; try discriminate.
+  exfalso. exact (take_not_err _ _ _ _ E).
 Qed.
 
 Lemma cap_loop_fuel_enough fuel : forall total len cm s, (1 <= fuel)%nat -> total - len + 2 <= 2 * Z.of_nat fuel ->
-  cap_loop fuel total len cm s <> PErr 99.
+  forall r, cap_loop fuel total len cm s <> PErr 99 r.
 Proof.
-  induction fuel as [|f IH]; intros total len cm s H1 H2; [lia|]. cbn [cap_loop].
+  induction fuel as [|f IH]; intros total len cm s H1 H2 r; [lia|]. cbn [cap_loop].
   destruct (Z.ltb_spec len total) as [Hlt|Hge].
-  - unfold bind at 1. destruct (u8 s) as [t r1| |e1|] eqn:E1; try discriminate.
-    + unfold bind at 1. destruct (u8 r1) as [cl r2| |e2|] eqn:E2; try discriminate.
-      * unfold bind at 1. destruct (take cl r2) as [bs r3| |e3|] eqn:E3; try discriminate.
+  - unfold bind at 1. destruct (u8 s) as [t r1| |e1 r1|] eqn:E1; try discriminate.
+    + unfold bind at 1. destruct (u8 r1) as [cl r2| |e2 r2|] eqn:E2; try discriminate.
+      * unfold bind at 1. destruct (take cl r2) as [bs r3| |e3 r3|] eqn:E3; try discriminate.
         -- pose proof (take_ok_nonneg _ _ _ _ E3) as Hcl. apply IH; lia.
-        -- exfalso. exact (take_not_err _ _ _ E3).
-      * exfalso. exact (u8_not_err _ _ E2).
-    + exfalso. exact (u8_not_err _ _ E1).
+        -- exfalso. exact (take_not_err _ _ _ _ E3).
+      * exfalso. exact (u8_not_err _ _ _ E2).
+    + exfalso. exact (u8_not_err _ _ _ E1).
   - destruct (total <? len); discriminate.
 Qed.
 
-Theorem dec_capability_fuel s : dec_capability s <> PErr 99.
+Theorem dec_capability_fuel s r : dec_capability s <> PErr 99 r.
 Proof.
-  unfold dec_capability. unfold bind at 1. destruct (u16 s) as [total r| |e|] eqn:E; try discriminate.
-  - unfold bind at 1. destruct (cap_loop (cap_fuel total) total 0 cap_init r) as [cm r2| |e2|] eqn:E2; try discriminate.
-    intros H. inversion H; subst e2. revert E2. apply cap_loop_fuel_enough.
+  unfold dec_capability. unfold bind at 1. destruct (u16 s) as [total r0| |e r0|] eqn:E; try discriminate.
+  - unfold bind at 1. destruct (cap_loop (cap_fuel total) total 0 cap_init r0) as [cm r2| |e2 r2|] eqn:E2; try discriminate.
+    intros H. inversion H; subst e2 r2. revert E2. apply cap_loop_fuel_enough.
     + unfold cap_fuel. assert (0 <= Z.max total 0 / 2) by (apply Z.div_pos; lia). lia.
     + unfold cap_fuel. assert (D0 : (2:Z) <> 0) by lia. assert (D1 : 0 < (2:Z)) by lia.
       pose proof (Z.div_mod (Z.max total 0) 2 D0) as Hd. pose proof (Z.mod_pos_bound (Z.max total 0) 2 D1) as Hm.
       rewrite Z2Nat.id by lia. lia.
-  - intros H. inversion H; subst e. unfold u16, pmap, bind in E. destruct (take 2 s) as [a r| |e0|] eqn:E0; try discriminate.
-    exact (take_not_err _ _ _ E0).
+  - exfalso. exact (u16_not_err _ _ _ E).
 Qed.
 
 (* ---------------------------------------------------------------- the bit position formula *)
